@@ -182,6 +182,28 @@ Theorem C11_retention_system : forall a sz r orc r' p,
 Proof. exact retention_system. Qed.
 Print Assumptions C11_retention_system.
 
+(** The bound of the property's text, where no configured minimum stands against it: min_nr below
+    max_nr and no old delta at an index >= max_nr - 1 younger than min_seconds - then at most max_nr
+    deltas are retained, the new one included ... *)
+Theorem C11_retention_within_max : forall a sz r orc r',
+  rstep a sz r OUpdate orc = Some r' -> staged_nonempty (r_st r) = true ->
+  c_min_nr (or_cfg orc) < c_max_nr (or_cfg orc) ->
+  (forall i x, nth_error (r_deltas r) i = Some x -> c_max_nr (or_cfg orc) - 1 <= N.of_nat i ->
+               younger_than (or_now orc) (c_min_secs (or_cfg orc)) x = false) ->
+  N.of_nat (length (r_deltas r')) <= c_max_nr (or_cfg orc).
+Proof. exact retention_within_max. Qed.
+Print Assumptions C11_retention_within_max.
+
+(** ... and, none being older than max_seconds, the loop keeps exactly the newest max_nr - 1 old
+    deltas (all if there are fewer). *)
+Theorem C11_truncate_age_exact : forall a c now ds,
+  c_min_nr c < c_max_nr c ->
+  (forall i x, nth_error ds i = Some x -> c_max_nr c - 1 <= N.of_nat i -> younger_than now (c_min_secs c) x = false) ->
+  (forall x, In x ds -> older_than now (c_max_secs c) x = false) ->
+  find_deltas_truncate_age a c now ds = Some (N.min (N.of_nat (length ds)) (c_max_nr c - 1)).
+Proof. exact truncate_age_exact. Qed.
+Print Assumptions C11_truncate_age_exact.
+
 (** What remains of F11a: the clause "never exceed the configured maximum number" at full
     strength is false, because the configured minimums have priority (more than max_nr deltas
     younger than min_seconds; min_nr >= max_nr). *)
